@@ -44,6 +44,11 @@ CLAIMED["C04"] = ("parser/writer table agreement derived by finite-domain abstra
     "Complete decision that every character the partial-annotation parser treats as syntax in annotation context is escaped by every "
     "tag-emitting site of the writer, that the label<->symbol tables are inverse bijections (both writer copies), and that text "
     "characters are literal on both sides. Value-level equality is not decided.", "DESIGN.md §4 C04")
+CLAIMED["C20"] = ("event-sequence derivation per loop iteration by abstract interpretation (sibling-branch agreement, typestate), finite decision tables, error-discipline analysis",
+    "Complete (over all flag values and both outcomes of update_raw) decision of the per-line output layout of predict in both modes and of the "
+    "'tag candidates only after fill_tags on the same sentence' typestate incl. the clap requires wiring; pipeline order per line; complete "
+    "decision of evaluate's confusion/Nagata counter tables over all label pairs and of the metric formula trees; no I/O Result unwrapped/ignored. "
+    "Byte-level equality with the library output and clap/IO behaviour are not decided.", "DESIGN.md §4 C20")
 NOT_YET = {}
 
 def main():
